@@ -56,5 +56,34 @@ fn k1_composite_key_cmp_transitive_len2() {
   }
 }
 
+// ---- K10: exact-mode percentiles never index out of bounds, for ANY requested percent (C16: aggregation configs never panic) ----
+fn percentile_harness(n: usize) {
+  let vals: [f64; 3] = kani::any();
+  kani::assume(vals[0].is_finite() && vals[1].is_finite() && vals[2].is_finite());
+  let mut st = QuantileState { values: vals[..n].to_vec(), digest: None, count: n };
+  let pct: f64 = kani::any();            // any bit pattern: negative, > 100, NaN, infinite
+  let r = st.percentile(pct);
+  // reaching this point at all means no index was out of bounds and nothing panicked
+  if n == 0 {
+    assert!(r == 0.0);
+  } else if n == 1 {
+    assert!(r == vals[0]);
+  } else {
+    assert!(!r.is_nan());
+  }
+  kani::cover!(pct > 100.0);
+  kani::cover!(pct < 0.0);
+}
+
+#[kani::proof]
+#[kani::unwind(5)]
+fn k10_percentile_exact_len0() { percentile_harness(0); }
+#[kani::proof]
+#[kani::unwind(5)]
+fn k10_percentile_exact_len1() { percentile_harness(1); }
+#[kani::proof]
+#[kani::unwind(5)]
+fn k10_percentile_exact_len2() { percentile_harness(2); }
+
 // concrete-playback tests (empty unless a failed harness is being replayed)
 include!("/verif/.cache/gen/playback_aggs.rs");
